@@ -1038,6 +1038,10 @@ def witness_cases():
             'base': base([sca, mkt]), 'grids': [A], 'prices': [{'T': 4, 'form': 'dict', 'data': {'p0': p}}],
             'history': [{'op': 'pf_split', 'grid': 0, 'reuse': True, 'prices': 0, 'interval': '2h'},
                         {'op': 'asset_noarg', 'asset': 'sca1_b', 'prices': 0}]},
+        'H3-wrapped-asset-builds-last-interval-only': {      # prices of the interval's length: no exception, the problem of the last interval
+            'base': base([sca, mkt]), 'grids': [A], 'prices': [{'T': 4, 'form': 'dict', 'data': {'p0': p}}, {'T': 2, 'form': 'dict', 'data': {'p0': p[:2]}}],
+            'history': [{'op': 'pf_split', 'grid': 0, 'reuse': True, 'prices': 0, 'interval': '2h'},
+                        {'op': 'asset_noarg', 'asset': 'sca1_b', 'prices': 1}]},
         'H3-inner-asset-of-structured-after-split': {
             'base': {'grid': A, 'nodes': ['N1', 'sa1_i1'], 'prices': {'p0': p}, 'assets': [
                 {'type': 'StructuredAsset', 'name': 'sa1', 'nodes': ['N1'], 'inner_nodes': ['sa1_i1'], 'args': {}, 'inner': [
@@ -1057,6 +1061,7 @@ WITNESS_EXPECT = {
     'H2-scaled-asset-without-grid-argument/raises': None,
     'H2-scaled-asset-after-split': None,                    # top-level call after a split: fine since 19afd7c
     'H3-wrapped-asset-left-on-interval-grid-after-split': 'H3',
+    'H3-wrapped-asset-builds-last-interval-only': 'H3',
     'H3-inner-asset-of-structured-after-split': 'H3',
 }
 
@@ -1276,7 +1281,11 @@ def _arr_eq(a, b):
     return a.shape == b.shape and bool(np.array_equal(a, b))
 
 
-_GRID_MSG = ('imegrid',)
+def _is_nogrid(e):
+    """the one failure the slot model knows: no grid has been set on the object"""
+    m = str(e)
+    return m.startswith('Set timegrid') or "no attribute 'timegrid'" in m
+
 
 
 def state_execute(case, drv, max_dis=6, version=None):
@@ -1295,6 +1304,7 @@ def state_execute(case, drv, max_dis=6, version=None):
         feats.append('state-skip:' + T.why)
         return out
     steps = []          # per real operation: dict(call, group, raised, reads, obs)
+    interval_labels = set()
     last = None
     res = None
     aborted = None
@@ -1409,6 +1419,7 @@ def state_execute(case, drv, max_dis=6, version=None):
         for _, _, tgo, _ in reads:
             if tgo is not None and T.label(tgo, register=False) is None:
                 new.append(T.label(tgo))
+                interval_labels.add(new[-1])
         for c in group:
             if c['call'] == 'setupSplit':
                 c['tmp'] = list(new)
@@ -1420,7 +1431,7 @@ def state_execute(case, drv, max_dis=6, version=None):
             aborted = 'exception-in-read-out:' + err_class(post_setup_error)
             steps[-1]['unmodelled'] = True
             break
-        if raised is not None and not any(m in str(raised) for m in _GRID_MSG):
+        if raised is not None and not _is_nogrid(raised):
             aborted = 'exception:' + err_class(raised)       # an exception the slot model does not know: state after it is not modelled
             steps[-1]['unmodelled'] = True
             break
@@ -1448,7 +1459,7 @@ def state_execute(case, drv, max_dis=6, version=None):
         for c in st['group']:
             feats.append('state-op:' + c['call'] + ('(no grid arg)' if c['call'] in ('setup', 'setupSub', 'setupPortfolio') and c.get('g') is None else ''))
         # theorem at run time: what the model's builders read is what setupPure predicts
-        if ms['results'] != ms['pure']:
+        if version is None and ms['results'] != ms['pure']:
             D(st, 'model-internal: setupSt result %s differs from setupPure %s' % (ms['results'], ms['pure']))
         # outcome class
         m_err = any('err' in r for r in ms['results'])
@@ -1513,7 +1524,7 @@ def state_execute(case, drv, max_dis=6, version=None):
                 D(st, 'grid object %d: discount factors inside the restricted grid are not those of the discount slot (wacc %s)' % (gi, mg['disc']))
             if not _arr_eq(getattr(c, 'discount_factors', None), rg['disc']):
                 D(st, 'grid object %d discount slot: real factors are not those of wacc %s (model)' % (gi, mg['disc']))
-            feats.append('state-writer:' + T.writer_kind(mg['restricted']) + ('/interval-grid' if gi >= 0 and getattr(tgo, '_c10_interval', False) else ''))
+            feats.append('state-writer:' + T.writer_kind(mg['restricted']) + ('@interval-grid' if gi in interval_labels else ''))
         if dis:
             break
     out['disagreements'] = dis
@@ -1619,17 +1630,96 @@ def gen_state_case(rnd):
     return {'base': base, 'grids': grids, 'prices': prices, 'history': hist, 'state_case': True}
 
 
+# ===================================================================== what the property module registers (harness/props/c10.py imports these)
+P10 = 'EAO.Properties.C10'
+THEOREMS = [
+    (P10, 'EAO.C10.setup_pure', 'slot model of the mutable state (restricted-grid and discount slots of every grid object, grid pointers of portfolio, assets and wrapped assets, windows of wrapped assets): for every reachable state and EVERY call of the current code version, what each builder reads is the own window, frequency and wacc of its asset on the grid the call names or the object itself was put on; no side condition'),
+    (P10, 'EAO.C10.setup_pure_with_grid', 'with an explicit grid argument the result is pure for any history and any code version, even with all assets sharing one grid object'),
+    (P10, 'EAO.C10.setup_pure_portfolio', 'the same for a portfolio set-up'),
+    (P10, 'EAO.C10.setup_pure_split', 'the same for a split set-up: every interval problem of every asset is built from the asset\'s own data on the interval grid'),
+    (P10, 'EAO.C10.inner_windows_restored', 'the windows of wrapped assets equal the constructed ones in every reachable state'),
+    (P10, 'EAO.C10.portfolio_setup_all_on', 'after a portfolio set-up with grid g the portfolio, all assets and all wrapped assets sit on g'),
+    (P10, 'EAO.C10.setup_not_pure_without_rederive', 'machine-checked counterexample for the behaviour before 7e0d787 (set-up without grid argument did not re-derive)'),
+    (P10, 'EAO.C10.scaled_noarg_not_pure_before_fix', 'machine-checked counterexample for the behaviour before 19afd7c (scaled asset without grid argument used the base asset\'s grid)'),
+    (P10, 'EAO.C10.split_leaves_wrapped_assets_on_interval_grid', 'machine-checked witness of known finding F-10e: after a split set-up wrapped assets stay on the grid of the last interval'),
+    (P10, 'EAO.C10.wrapped_noarg_after_split_not_pure', 'hence a direct set-up of a wrapped asset without grid argument depends on whether a split ran before (F-10e)'),
+    (P10, 'EAO.C10.normalise_intervals', 'normal form of interval data (lists, implicit ends)'),
+    (P10, 'EAO.C10.values_to_grid_normalise', 'evaluating the normal form gives the same result as evaluating the raw form'),
+    (P10, 'EAO.C10.normalise_idem', 'normalisation is idempotent'),
+]
+PARTIAL = [
+    'the Lean state model covers the slot logic only (who writes the restricted / discount slots and the grid pointers, what each builder reads back); '
+    'Python aliasing of containers, pandas in-place semantics and the numeric content of the problems are covered only by the history oracle on the real code',
+    'tie of the state model to the code: CHECKED on every run by the differential test "state-model" (driver op state_run vs the real objects after every operation: '
+    'grid pointer of portfolio / every asset / every wrapped asset, start and end of wrapped assets, restricted slot and discount slot of every reachable grid object, '
+    'and per builder the slots of its grid at the moment its setup_optim_problem returns). Still by inspection: (a) that a builder reads nothing mutable besides '
+    'self.timegrid.restricted between its own set_timegrid and its return (the test sees the slots at return, not each attribute access; the fresh-object oracle covers the effect); '
+    '(b) the state after an exception other than "no grid set" (the comparison of a history stops there); (c) LinkedAsset and wrappers nested in wrappers (not generated, not modelled); '
+    '(d) the two OLD code versions of the model (rederive / scaledOwnGrid = false) were compared once with the trees before 7e0d787 / 19afd7c on the counterexample histories, not on every run',
+]
+COMPONENTS = ['history oracle: n-th set-up on the same objects vs a fresh object tree and fresh grid (exact comparison of c, l, u, rows, mapping)',
+              'state-model: Lean slot model (state_run) vs slots and grid pointers of the real objects after every operation, and what every builder read']
+RULE = ('random histories of 2-8 calls (asset/portfolio/split set-up with and without grid argument, skip nodes, fix windows, optimise incl. soft-then-plain, extract_output, dcf, fill_level, make_slp, to_json, '
+        'cost samples, io.optimize) on the same objects over 1-3 grid variants (shifted, other frequency, zone, main time unit, same object reused or fresh) and price containers in 5 forms, plus slot-logic histories of 3-8 '
+        'operations over portfolios with windows / waccs on every level, scaled and structured assets, order books, storages and 2-3 grid objects (one shared); every history runs through the fresh-object oracle AND the state-model '
+        'comparison; features state-op:* (model calls), state-read:* / state-writer:* (which kind of window the builders read / the slots hold); non-trivial = history with >= 2 compared set-up calls; distinct by case hash')
+NEEDS_DRIVER = True
+
+
+def scenarios(seed, tier):
+    n, m = (250, 150) if tier == 'quick' else (2500, 1500)
+    rnd = random.Random(seed * 7919 + 10)
+    for name, c in witness_cases().items():
+        yield 'witness:' + name, c
+    for i in range(n):
+        yield 'hist%d' % i, gen_case(random.Random(rnd.getrandbits(48)))
+    for i in range(m):
+        yield 'slots%d' % i, gen_state_case(random.Random(rnd.getrandbits(48)))
+
+
+def run_case(case, drv):
+    res = execute(case)
+    viol = oracle(case, res, do_shrink=True)
+    out = {'evaluated': max(1, res.get('n_compared', 1)), 'nontrivial': res.get('n_compared', 0) >= 2, 'features': list(res.get('features', [])),
+           'disagreements': [], 'violations': []}
+    for v in viol:
+        f = dict(v.get('facts', {}))
+        f['class'] = classify(v)
+        out['violations'].append({'oracle': v.get('oracle'), 'detail': v.get('detail'), 'facts': f, 'scenario': v.get('scenario', case)})
+    st = state_execute(case, drv)
+    out['disagreements'] = st['disagreements']
+    out['features'] += st['features']
+    out['evaluated'] += st['ops']
+    out['observed'] = {'calls': res.get('n_calls'), 'compared': res.get('n_compared'), 'state_ops': st['ops'], 'state_observables': st['observables']}
+    return out
+
+
 def selftest(n, seed, drv=None, verbose=False, do_shrink=True):
     """n random histories; returns counts, violations (shrunk, de-duplicated by (kind, op)), facts histogram"""
     rnd = random.Random(seed)
-    counts = {'cases': 0, 'calls': 0, 'compared': 0, 'violating_cases': 0, 'harness_errors': 0}
+    counts = {'cases': 0, 'calls': 0, 'compared': 0, 'violating_cases': 0, 'harness_errors': 0,
+              'state_histories': 0, 'state_ops': 0, 'state_observables': 0, 'state_disagreeing_histories': 0}
     feats, facts_h = {}, {}
     viols, herrs = [], []
+    disagreements = []
     seen = set()
     for i in range(n):
-        case = gen_case(random.Random(rnd.getrandbits(48)))
+        # every third history is aimed at the slot logic
+        case = (gen_state_case if i % 3 == 2 else gen_case)(random.Random(rnd.getrandbits(48)))
         try:
             r = execute(case)
+            if drv is not None:
+                st = state_execute(case, drv)
+                counts['state_histories'] += st['histories']
+                counts['state_ops'] += st['ops']
+                counts['state_observables'] += st['observables']
+                r['features'] = list(r['features']) + st['features']
+                if st['disagreements']:
+                    counts['state_disagreeing_histories'] += 1
+                    for d in st['disagreements'][:2]:
+                        disagreements.append(dict(d, case_no=i, scenario=case))
+                    if verbose:
+                        print('DISAGREEMENT case %d: %s' % (i, st['disagreements'][0]['detail'][:300]))
         except Exception as e:
             import traceback
             counts['harness_errors'] += 1
@@ -1659,7 +1749,7 @@ def selftest(n, seed, drv=None, verbose=False, do_shrink=True):
                 if verbose:
                     print('VIOLATION case %d: %s' % (i, vv['detail'][:300]))
     return {'counts': counts, 'features': dict(sorted(feats.items())), 'facts': dict(sorted(facts_h.items())),
-            'violations': viols, 'harness_errors': herrs, 'disagreements': [], 'witnesses': check_witnesses()}
+            'violations': viols, 'harness_errors': herrs, 'disagreements': disagreements, 'witnesses': check_witnesses()}
 
 
 if __name__ == '__main__':
